@@ -271,6 +271,46 @@ def comparison_warnings(model, db, budget, e):
     return kinds, err
 
 
+def expected_comparison(model, db, budget, e):
+    """what forecast_comparison_one_draw has to report, recomputed from the two real solvers (same
+    deterministic calls as inside it) with every vector in position order: independent of how the
+    method itself orders the consumptions, and not demanding anything of the external SLSQP solver"""
+    bf, _ = safe(model.forecast_bruteforce_one_draw, db, budget, e.copy())
+    an, _ = safe(model.forecast_bisection_one_draw, db, budget, e.copy())
+    if bf is None and an is None:
+        return ['Both algorithms failed.']
+    if bf is None:
+        return ['Brute force algorithm failed.']
+    if an is None:
+        return ['Analytical algorithm failed.']
+    kinds = set()
+    cs_b = {k for k, v in bf.items() if not np.isclose(v, 0)}
+    cs_a = {k for k, v in an.items() if not np.isclose(v, 0)}
+    if cs_a != cs_b:
+        kinds.add('Different optimal choice sets')
+    xb = np.array([bf[k] for k in model.index_to_key])
+    xa = np.array([an[k] for k in model.index_to_key])
+    ob = model.sum_of_utilities(consumptions=xb, epsilon=e.copy(), data_row=db)
+    oa = model.sum_of_utilities(consumptions=xa, epsilon=e.copy(), data_row=db)
+    # borderline comparisons (within a factor 10 of np.isclose's thresholds) are not decided
+    def far(a, b):
+        return abs(a - b) > 10 * (1e-8 + 1e-5 * abs(b))
+
+    def near(a, b):
+        return abs(a - b) < 0.1 * (1e-8 + 1e-5 * abs(b))
+
+    undecided = False
+    if far(oa, ob):
+        kinds.add('Difference between optimal utility with analytical'[:40])
+    elif not near(oa, ob):
+        undecided = True
+    if far(float(sum(xa)), float(sum(xb))):
+        kinds.add('Difference between constraint with analytical'[:40])
+    elif not near(float(sum(xa)), float(sum(xb))):
+        undecided = True
+    return None if undecided else sorted(kinds)
+
+
 # ----------------------------------------------------------------------------- checks
 
 
@@ -379,7 +419,13 @@ def check_problem(ctx, res, prob, labs, brute=True, pieces=True, comparison=Fals
 
                     ctx.batch.add_many(reqs, cb)
                     if comparison and lname in ('seq', 'sparse'):
-                        comp[(lname, r, d)] = comparison_warnings(model, db, prob['budget'], e.copy())
+                        kinds, cerr = comparison_warnings(model, db, prob['budget'], e.copy())
+                        want = expected_comparison(model, db, prob['budget'], e)
+                        res.tally('comparison_checked' if want is not None else 'comparison_borderline')
+                        if want is not None and (cerr is not None or kinds != want):
+                            res.violate('forecast_comparison_one_draw does not report what its two solutions imply',
+                                        sub, {'warnings': kinds, 'error': cerr}, {'warnings': want, 'error': None},
+                                        where=F_C18_2_WHERE if order_differs(labels) else 'Mdcev.forecast_comparison_one_draw')
                 if pieces:
                     check_pieces(ctx, res, prob, labels, lname, model, db, r, W1)
             if pieces:
@@ -407,16 +453,6 @@ def check_problem(ctx, res, prob, labs, brute=True, pieces=True, comparison=Fals
                 res.violate('the forecast depends on the labels of the alternatives',
                             {'problem': prob, 'labels': labs[bad if known else ln], 'labeling': ln, 'other_labels': labs[ref_name], 'row': r, 'draw': d},
                             {ln: b}, {ref_name: a}, where=F_C18_1_WHERE if known else 'Mdcev (labels)')
-    if comparison:
-        for (ln, r, d), (kinds, err) in comp.items():
-            if ln != 'sparse' or ('seq', r, d) not in comp:
-                continue
-            k0, e0 = comp[('seq', r, d)]
-            res.tally('comparison_compared')
-            if (kinds, err is None) != (k0, e0 is None):
-                res.violate('forecast_comparison_one_draw reports differently under a relabelling',
-                            {'problem': prob, 'labels': labs['sparse'], 'labeling': 'sparse', 'other_labels': labs['seq'], 'row': r, 'draw': d},
-                            {'warnings': kinds, 'error': err}, {'warnings': k0, 'error': e0}, where=F_C18_2_WHERE if order_differs(labs['sparse']) else 'Mdcev.forecast_comparison_one_draw')
 
 
 def check_forecast_table(res, prob, labels, lname, model, results, W1):
@@ -786,6 +822,6 @@ def replay(ctx, obj):
         check_scenarios(shim, r, prob, sub['labels'], sub.get('labeling', 'given'))
         out.update({'property_fails': bool(r.violations), 'violations': [{'what': v['what'], 'observed': v['observed'], 'expected': v['expected']} for v in r.violations[:3]]})
         return out
-    check_problem(shim, r, prob, labs, brute=True, pieces=bool(sub.get('pieces')), comparison='reports differently' in str(obj.get('what')))
+    check_problem(shim, r, prob, labs, brute=True, pieces=bool(sub.get('pieces')), comparison='forecast_comparison_one_draw' in str(obj.get('what')))
     out.update({'property_fails': bool(r.violations), 'violations': [{'what': v['what'], 'observed': v['observed'], 'expected': v['expected']} for v in r.violations[:3]]})
     return out
